@@ -162,7 +162,7 @@ def run(chk):
     chk.rule("system-direction", "the system side handed to a blocked decomposition, evaluated for both values of the sweep-direction flag: 'L' to the right, 'R' to the left", 4)
     chk.rule("absorb-direction", "_update_ms (abstract run): isometry restored on the site, remainder contracted into the neighbour on the sweep side, one cut, singular values once, labels and centre follow", 8)
     chk.rule("ensure-consistency", "ensure_left/right_canonical (abstract runs with canonicalise from source, 24 start configurations each on 2 and 4 sites): advertised form, label centre and direction flag on return; no sweep assertion fails", 4)
-    chk.rule("tree-push", "push_cano_to_parent/child = decompose_to_* followed by merge_to_* with the same node (and child index)", 2)
+    chk.rule("tree-push", "push_cano_to_parent/child (abstract runs with recorders): decompose_to_* once, then merge_to_* with the same node (and child index) and the remainder that decomposition returned", 2)
     svd_mode_rule(chk, src)
     chk.rule("svd-blocks", "svd_qn (abstract run with column provenance, shared with C05): every allowed sector's block is decomposed, columns on the rows of their sector with its label, and "
                            "the result does not depend on the magnitude of the entries (the scalar prefactor may live in them)", 3)
@@ -228,16 +228,21 @@ def run(chk):
     from .chain_rules import canonical_typestate_rule
     canonical_typestate_rule(chk, src, "check-mirror", "ensure-consistency")
     # ---- tree push
-    for nm, dec, mer in (("push_cano_to_parent", "decompose_to_parent", "merge_to_parent"), ("push_cano_to_child", "decompose_to_child", "merge_to_child")):
+    from ..syminterp import SymInterp, Sym
+    for nm, dec, mer, extra in (("push_cano_to_parent", "decompose_to_parent", "merge_to_parent", []), ("push_cano_to_child", "decompose_to_child", "merge_to_child", ["ichild"])):
         fi = src.func(TREE, f"TTNS.{nm}")
-        calls = [c for c in ast.walk(fi.node) if isinstance(c, ast.Call) and isinstance(c.func, ast.Attribute) and c.func.attr in (dec, mer)]
-        calls.sort(key=lambda c: c.lineno)
-        ok = [c.func.attr for c in calls] == [dec, mer]
-        if ok:
-            a0 = [unparse(a) for a in calls[0].args]
-            a1 = [unparse(a) for a in calls[1].args]
-            ok = a1[:len(a0)] == a0 and len(a1) == len(a0) + 1
-        chk.ob("tree-push", nm, ok, fi.where, [unparse(c) for c in calls], f"v = {dec}(node..); {mer}(node.., v)", line=fi.node.lineno)
+        events = []
+        remainder = Sym("remainder of the decomposition")
+        node = Sym("node", parent=Sym("parent"), children=[Sym("child0"), Sym("child1")])
+        me = Sym("ttns")
+        me.__dict__[dec] = lambda *a, **k: events.append(("decompose", a, tuple(sorted(k.items())))) or remainder
+        me.__dict__[mer] = lambda *a, **k: events.append(("merge", a, tuple(sorted(k.items()))))
+        SymInterp(src, None, {}).call_function(fi, [me, node] + ([1] if extra else []))
+        want = [("decompose", (node,) + ((1,) if extra else ()), ()), ("merge", (node,) + ((1,) if extra else ()) + (remainder,), ())]
+        # keyword spellings of the same calls are the same calls
+        norm = [(k_, a_ + tuple(v_ for _, v_ in kw_), ()) for k_, a_, kw_ in events]
+        chk.ob("tree-push", nm, norm == want, fi.where, [(k_, [repr(x) for x in a_]) for k_, a_, _ in norm], f"{dec}(node..) once, then {mer}(node.., its result)", line=fi.node.lineno,
+               detail="the centre is pushed by decomposing the node towards the neighbour and merging the remainder of *that* decomposition into *that* neighbour")
 
 
 META = {
